@@ -527,6 +527,11 @@ struct Extractor {
 			int t = tyIdOf(C->getType());
 			if (t >= 0) o["tid"] = t;
 			const CXXConstructorDecl* CD = C->getConstructor();
+			// `using Base::Base`: the implicit inheriting constructor has no body of its own — resolve to the inherited one
+			while (CD->isInheritingConstructor() && CD->getInheritedConstructor().getConstructor()) {
+				o["inherited"] = true;
+				CD = CD->getInheritedConstructor().getConstructor();
+			}
 			o["f"] = fnId(CD);
 			curCalls.insert(fnId(CD));
 			if (CD->isCopyConstructor()) o["copy"] = true;
